@@ -384,4 +384,92 @@ theorem Returns.ret_of {ext : Ext} {env : Env} {e : Expr} (r : M Val) (he : eval
   | error err => exact ⟨env, Runs.ret_err he⟩
   | ok v => exact Or.inl (Runs.ret he)
 
+theorem ok_bind {α β : Type} (a : α) (f : α → M β) : ((Except.ok a : M α) >>= f) = f a := rfl
+theorem err_bind {α β : Type} (e : PyErr) (f : α → M β) : ((Except.error e : M α) >>= f) = Except.error e := rfl
+
+/-! ### blocks that fall through: the environment afterwards, or the exception -/
+
+def Falls (ext : Ext) (s : Stmt) (env : Env) (r : M Env) : Prop :=
+  match r with
+  | .ok env' => Runs ext s env (.norm env')
+  | .error e => ∃ env'', Runs ext s env (.exc e env'')
+
+theorem Falls.skip (ext : Ext) (env : Env) : Falls ext .skip env (.ok env) := Runs.skip ext env
+
+theorem Falls.assign {ext : Ext} {env : Env} {x : String} {e : Expr} (r : M Val) (he : evalExpr ext env e = r) :
+    Falls ext (.assign x e) env (r.map fun v => setVar env x v) := by
+  cases r with
+  | error err => exact ⟨env, Runs.assign_err he⟩
+  | ok v => exact Runs.assign he
+
+theorem Falls.seq {ext : Ext} {a b : Stmt} {env : Env} {r : M Env} {g : Env → M Env} (h1 : Falls ext a env r)
+    (h2 : ∀ env', r = .ok env' → Falls ext b env' (g env')) : Falls ext (.seq a b) env (r >>= g) := by
+  cases r with
+  | error err =>
+    obtain ⟨e'', h1⟩ := h1
+    exact ⟨e'', Runs.seq_stop h1 (by intro e; simp)⟩
+  | ok env' =>
+    have := h2 env' rfl
+    simp only [bind, Except.bind]
+    cases hg : g env' with
+    | error err =>
+      rw [hg] at this
+      obtain ⟨e'', this⟩ := this
+      exact ⟨e'', Runs.seq h1 this⟩
+    | ok env2 =>
+      rw [hg] at this
+      exact Runs.seq h1 this
+
+/-- `if c: raise E` -/
+theorem Falls.guard {ext : Ext} {env : Env} {c : Expr} {E : PyErr} (r : M Bool) (hc : evalExpr ext env c >>= truth = r) :
+    Falls ext (.ite c (.raise E) .skip) env (r >>= fun b => if b then .error E else .ok env) := by
+  cases r with
+  | error err => exact ⟨env, Runs.ite_err hc⟩
+  | ok b =>
+    cases b with
+    | true => exact ⟨env, Runs.ite_true hc (Runs.raise _ _ _)⟩
+    | false => exact Runs.ite_false hc (Runs.skip _ _)
+
+theorem Falls.ite {ext : Ext} {env : Env} {c : Expr} {a b : Stmt} {ra rb : M Env} (r : M Bool) (hc : evalExpr ext env c >>= truth = r)
+    (ha : r = .ok true → Falls ext a env ra) (hb : r = .ok false → Falls ext b env rb) :
+    Falls ext (.ite c a b) env (r >>= fun t => if t then ra else rb) := by
+  cases r with
+  | error err => exact ⟨env, Runs.ite_err hc⟩
+  | ok t =>
+    cases t with
+    | true =>
+      have := ha rfl
+      simp only [bind, Except.bind, if_true]
+      cases ra with
+      | error e => obtain ⟨e'', this⟩ := this; exact ⟨e'', Runs.ite_true hc this⟩
+      | ok env' => exact Runs.ite_true hc this
+    | false =>
+      have := hb rfl
+      simp only [bind, Except.bind, Bool.false_eq_true, if_false]
+      cases rb with
+      | error e => obtain ⟨e'', this⟩ := this; exact ⟨e'', Runs.ite_false hc this⟩
+      | ok env' => exact Runs.ite_false hc this
+
+/-- `try: x = e` / `except K: raise E'` -/
+theorem Falls.try_assign {ext : Ext} {env : Env} {x : String} {e : Expr} {K E' : PyErr} (r : M Val) (he : evalExpr ext env e = r) :
+    Falls ext (.tryExcept (.assign x e) K (.raise E')) env
+      ((match r with | .error err => if err = K then (Except.error E' : M Val) else .error err | .ok v => .ok v).map fun v => setVar env x v) := by
+  cases r with
+  | ok v => exact Runs.try_pass (Runs.assign he) (by intro e env' h; simp at h)
+  | error err =>
+    by_cases hk : err = K
+    · subst hk
+      simp only [if_true, Except.map]
+      exact ⟨env, Runs.try_catch (Runs.assign_err he) (Runs.raise _ _ _)⟩
+    · simp only [hk, if_false, Except.map]
+      exact ⟨env, Runs.try_pass (Runs.assign_err he) (by intro e env' h; simp at h; exact fun he => hk (h.1 ▸ he))⟩
+
+theorem Returns.seq_falls {ext : Ext} {a rest : Stmt} {env : Env} {r : M Env} {f : Env → M Val} (h1 : Falls ext a env r)
+    (h2 : ∀ env', r = .ok env' → Returns ext rest env' (f env')) : Returns ext (.seq a rest) env (r >>= f) := by
+  cases r with
+  | error err =>
+    obtain ⟨e'', h1⟩ := h1
+    exact ⟨e'', Runs.seq_stop h1 (by intro e; simp)⟩
+  | ok env' => exact Returns.seq_norm h1 (h2 env' rfl)
+
 end Chartparse.PyImp
